@@ -795,6 +795,12 @@ func (fe *FnExec) lookupAssumes(fr *frame, st *State, x *ssa.Lookup, v Val) {
 	if cs == nil {
 		return
 	}
+	for _, a := range cs.Asserts {
+		ctx := fe.ctxFor(fr, st)
+		ctx.binds["arg0"], ctx.binds["key"], ctx.binds["value"] = fe.val(x.X), fe.val(x.Index), v
+		g := ctx.evalBool(a.X)
+		fe.oblige(fr, fmt.Sprintf("%s.assert:%s", fr.ords[x], a.Label), a.Props, st.pc, g, x.Pos(), a.Src)
+	}
 	for _, a := range cs.Assumes {
 		ctx := fe.ctxFor(fr, st)
 		ctx.binds["arg0"], ctx.binds["key"], ctx.binds["value"] = fe.val(x.X), fe.val(x.Index), v
